@@ -276,6 +276,10 @@ def interp (cfg : Cfg) (S : Schema) (arm : Arm) (n : Node) (inc : Bool) : Res :=
     (match n with
      | .inval v _ => .text v.dflt
      | _ => .null)
+  | .defaultMixed =>
+    (match n with
+     | .inval v _ => (match v.dflt with | .none | .null | .str _ => .dflt v.dflt | d => .text d)
+     | _ => .null)
   | .args =>
     (match n with
      | .field f => .nodes .resolver (f.args.map (fun v => .inval v true))
